@@ -74,36 +74,36 @@ Qed.
     exactly when the table says the build must fail.  ([spec_eval] = None means the tree uses a
     function outside the documented set; a result [OutOfFuel] is the model's artefact for an
     unbounded chain of symbol definitions and is excluded.) *)
-Theorem run_spec (c : ctx) (env : str -> option Z) :
-  (forall n f r, run f c (EIdent n) = r -> r <> OutOfFuel -> r = to_res (env n)) ->
-  forall f e r s, run f c e = r -> r <> OutOfFuel -> spec_eval env e = Some s -> r = to_res s.
+Theorem run_n_spec (c : ctx) (d : nat) (env : str -> option Z) :
+  (forall n f r, run_n f d c (EIdent n) = r -> r <> OutOfFuel -> r = to_res (env n)) ->
+  forall f e r s, run_n f d c e = r -> r <> OutOfFuel -> spec_eval env e = Some s -> r = to_res s.
 Proof.
   intros Henv f. induction f as [|f IH]; intros e r s Hr Hnf Hs; [cbn in Hr; congruence|].
   destruct e as [n | z | fn a | l o rr | o x].
   - cbn [spec_eval] in Hs. injection Hs as <-. eapply Henv; eauto.
   - cbn in Hr, Hs. injection Hs as <-. subst. reflexivity.
-  - cbn [run] in Hr. destruct fn as [name | | | |]; cbn [spec_eval] in Hs.
+  - cbn [run_n] in Hr. destruct fn as [name | | | |]; cbn [spec_eval] in Hs.
     2-5: injection Hs as <-; subst; reflexivity.
     destruct (spec_eval env a) as [[v|]|] eqn:Ea; [| |discriminate].
-    + destruct (run f c a) as [v'| | |] eqn:Er.
+    + destruct (run_n f d c a) as [v'| | |] eqn:Er.
       * assert (Ok v' = to_res (Some v)) as E by (eapply IH; eauto; congruence). cbn in E. injection E as ->.
         cbn [bind] in Hr. subst r. apply fn_spec. exact Hs.
       * assert (Err line = to_res (Some v)) as E by (eapply IH; eauto; congruence). discriminate.
       * assert (@Panic Z = to_res (Some v)) as E by (eapply IH; eauto; congruence). discriminate.
       * cbn in Hr. congruence.
     + destruct (fn_of name) eqn:Ef; try discriminate; injection Hs as <-;
-        (destruct (run f c a) as [v'| | |] eqn:Er;
+        (destruct (run_n f d c a) as [v'| | |] eqn:Er;
          [ assert (Ok v' = to_res None) as E by (eapply IH; eauto; congruence); discriminate
          | assert (Err line = to_res None) as E by (eapply IH; eauto; congruence); cbn [bind] in Hr; subst r; exact E
          | assert (@Panic Z = to_res None) as E by (eapply IH; eauto; congruence); discriminate
          | cbn in Hr; congruence ]).
-  - cbn [run] in Hr. cbn [spec_eval] in Hs.
+  - cbn [run_n] in Hr. cbn [spec_eval] in Hs.
     destruct (spec_eval env l) as [sl|] eqn:El; [|discriminate].
-    destruct (run f c l) as [a| | |] eqn:Ea; cbn [bind] in Hr; [| | |congruence].
+    destruct (run_n f d c l) as [a| | |] eqn:Ea; cbn [bind] in Hr; [| | |congruence].
     + assert (Ok a = to_res sl) as E1 by (eapply IH; eauto; congruence).
       destruct sl as [a'|]; [|discriminate]. cbn in E1. injection E1 as <-.
       destruct (spec_eval env rr) as [sr|] eqn:Er; [|discriminate].
-      destruct (run f c rr) as [b| | |] eqn:Eb; cbn [bind] in Hr; [| | |congruence].
+      destruct (run_n f d c rr) as [b| | |] eqn:Eb; cbn [bind] in Hr; [| | |congruence].
       * assert (Ok b = to_res sr) as E2 by (eapply IH; eauto; congruence).
         destruct sr as [b'|]; [|discriminate]. cbn in E2. injection E2 as <-.
         injection Hs as <-. subst r. apply bin_spec.
@@ -114,12 +114,17 @@ Proof.
       destruct sl; [discriminate|]. cbn in E1.
       destruct (spec_eval env rr) as [sr|]; [|discriminate]. injection Hs as <-. subst r. exact E1.
     + assert (@Panic Z = to_res sl) as E1 by (eapply IH; eauto; congruence). destruct sl; discriminate.
-  - cbn [run] in Hr. cbn [spec_eval] in Hs.
+  - cbn [run_n] in Hr. cbn [spec_eval] in Hs.
     destruct (spec_eval env x) as [sx|] eqn:Ex; [|discriminate].
-    destruct (run f c x) as [a| | |] eqn:Ea; cbn [bind] in Hr; [| | |congruence].
+    destruct (run_n f d c x) as [a| | |] eqn:Ea; cbn [bind] in Hr; [| | |congruence].
     + assert (Ok a = to_res sx) as E1 by (eapply IH; eauto; congruence).
       destruct sx as [a'|]; [|discriminate]. cbn in E1. injection E1 as <-. injection Hs as <-. subst r. apply un_spec.
     + assert (Err line = to_res sx) as E1 by (eapply IH; eauto; congruence).
       destruct sx; [discriminate|]. cbn in E1. injection Hs as <-. subst r. exact E1.
     + assert (@Panic Z = to_res sx) as E1 by (eapply IH; eauto; congruence). destruct sx; discriminate.
 Qed.
+
+Corollary run_spec (c : ctx) (env : str -> option Z) :
+  (forall n f r, run f c (EIdent n) = r -> r <> OutOfFuel -> r = to_res (env n)) ->
+  forall f e r s, run f c e = r -> r <> OutOfFuel -> spec_eval env e = Some s -> r = to_res s.
+Proof. unfold run. apply run_n_spec. Qed.
